@@ -9,6 +9,7 @@ import HC.Proofs.ReplicaReopen
 import HC.Proofs.CreateTotal
 import HC.Proofs.BlockUpgrade
 import HC.Proofs.BlockGrow
+import HC.Proofs.BlockGrowWriter
 /-!
 # C03 — any honest proof is accepted and replicas converge to the writer's data
 
@@ -494,5 +495,30 @@ theorem block_with_upgrade_applied (C : Crypto) (hC : TreeStore.HashWF C) (hT : 
     exact Growth.get_held_at C bs n _ _ _ r2.rep j (by simp [hj])
   · intro j
     simpa [Core.has] using r2.rep.bits j
+
+/-- the combined proof of `block_with_upgrade_applied` is the writer's: a writer whose log is the first `n` blocks answers
+    the replica's request "block `i` with my `missing_nodes` count, upgrade me from `m`" with exactly those nodes, and the
+    value is the writer's block -/
+theorem honest_blockgrowth_is_writers (C : Crypto) (bs : Array Bytes) (n : Nat) (hn : n ≤ bs.size) (hs : bs.size < 2 ^ 64) (tw : Tree) (fw : File)
+    (hT : RefProof.RootsOK C (bs.extract 0 n) tw.changeset) (hN : Offsets.NodesOK C (bs.extract 0 n) tw fw)
+    (m : Nat) (hm0 : 0 < m) (hmn : m < n) (sig : Bytes) (hsig : tw.signature = some sig)
+    (us : List (Nat × Nat)) (hup : Growth.Up m 0 (RefTree.rootsStack n).reverse us)
+    (c : Core) (d : Disk) (held : Nat → Bool) (h : Growth.RepRAt C bs m c d held) (hf : c.tree.fork = tw.fork) (i : Nat) (hi : i < m) :
+    ∃ nodes up, tw.createValuelessProof fw (some ⟨i, c.tree.missingNodes d.tree (2 * i)⟩) none none (some ⟨m, n - m⟩)
+        = .ok ⟨tw.fork, some ⟨i, nodes⟩, none, none, some up⟩
+      ∧ BlockGrow.honestBlockGrowth C bs c d i m n us sig = ⟨tw.fork, some ⟨i, bs.getD i [], nodes⟩, none, none, some up⟩ := by
+  have hsz := Growth.size_extract bs n hn
+  have hM : m < 2 ^ 64 := by omega
+  obtain ⟨_, hin⟩ := Complete.missingNodes_spec C bs m c.tree d.tree h.closed.sparse hM i hi
+  have := BlockGrowWriter.create_blockgrowth_proof C (bs.extract 0 n) tw fw hT hN (by rw [hsz]; omega) m hm0 (by rw [hsz]; exact hmn) sig hsig us
+    (by rw [hsz]; exact hup) i _ hi hin
+  rw [hsz] at this
+  refine ⟨_, _, this, ?_⟩
+  simp only [BlockGrow.honestBlockGrowth, hf]
+  rw [Growth.sibPath_extract C bs n hn _ 0 i (by simp only [Nat.zero_add]; omega)]
+  congr 3
+  apply List.map_congr_left
+  intro q hq
+  exact (Growth.nodeAt_extract C bs n hn q.1 q.2 (Growth.up_bound m n _ 0 us (Offsets.cover_roots n) hup q hq)).symm
 
 end HC.C03
